@@ -281,7 +281,7 @@ prop("C32",
 
 
 prop("C10",
-     units=["langframe", "lexerr", "fntables", "separators", "errprint", "fncall", "arrayprint"],
+     units=["langframe", "lexerr", "fntables", "separators", "errprint", "fncall", "arrayprint", "boolentry"],
      level="proof",
      claim="slices. Separators: at every site where the display printer (stringify) or the cut-and-paste printer (to_string_moved) chooses an argument / LAMBDA / array-element "
            "/ array-row separator, the chosen character is lexed by the real single-character arms of Lexer::next_token, in the same locale, as exactly the token "
@@ -332,6 +332,19 @@ prop("C25",
                   "the reviewed list of the scan (10 sites, each with its reason in vf/scans.py) and the length-guard pattern are reviews, not proofs"],
      residual="roxmltree / zip / bitcode (external), arithmetic overflow in debug builds, allocation failure, stack depth on deeply nested XML, everything the importer hands to "
               "ironcalc_base (formula parsing of imported text is C11's subject), every importer function not listed")
+
+
+prop("C18",
+     units=["boolentry", "errprint"],
+     level="proof",
+     claim="slice (booleans and error values, in every language): a boolean cell is displayed with the name of the display language (Boolean arm of Cell::get_localized_text) and "
+           "Model::parse_boolean, the recogniser set_user_input calls, reads that name (any letter case) back as the same boolean and reads nothing as a boolean except the two "
+           "localized and the two English names; an error cell is displayed by Error::to_localized_error_string (the localized name, unit errprint) and get_error_by_name answers "
+           "an error kind only for that kind's localized name and answers some kind for every localized name",
+     assumptions=["data (language.bin): the two boolean names of a language are different, upper-case, and the error names pairwise different — then the kind read back is the "
+                  "kind displayed", "str::to_uppercase / to_lowercase are uninterpreted functions of the text; String::parse::<bool> accepts exactly \"true\" and \"false\""],
+     residual="numbers in every shape (15-digit display vs. stored double), dates, percentages, currencies, strings that look like values (quote prefix), formulas, styles — the "
+              "formatter / input-parser round trip is string and floating-point code; the call of parse_boolean / get_error_by_name inside set_user_input (position in the cascade)")
 
 
 def evidence(pid, tier, seed, results, scan_results, kani_results, violations, known_hits, undecided, wall):
